@@ -45,9 +45,9 @@ func genRegex(t *rapid.T, depth int, label string) *reNode {
 	}
 	switch rapid.IntRange(0, max).Draw(t, label+"K") {
 	case 0:
-		return &reNode{kind: "lit", s: rapid.SampledFrom([]string{"a", "b", "ab", "x", "0", "-", "_", "\\.", "\\+", "/"}).Draw(t, label+"L")}
+		return &reNode{kind: "lit", s: rapid.SampledFrom([]string{"a", "b", "ab", "x", "0", "-", "_", "\\.", "\\+", "/", " ", "a "}).Draw(t, label+"L")}
 	case 1:
-		return &reNode{kind: "class", s: rapid.SampledFrom([]string{"[a-c]", "[0-9]", "\\d", "[a-z0-9]", "[^x]", "\\w", "."}).Draw(t, label+"C")}
+		return &reNode{kind: "class", s: rapid.SampledFrom([]string{"[a-c]", "[0-9]", "\\d", "[a-z0-9]", "[^x]", "\\w", ".", "\\s", "[ ]"}).Draw(t, label+"C")}
 	case 2:
 		return &reNode{kind: "opt", kids: []*reNode{genRegex(t, depth-1, label+"o")}}
 	case 3:
@@ -117,6 +117,10 @@ func (r *reNode) sample(t *rapid.T, label string) string {
 			return rapid.SampledFrom([]string{"a", "z", "0"}).Draw(t, label)
 		case "[^x]":
 			return rapid.SampledFrom([]string{"a", "y", "-", "é"}).Draw(t, label)
+		case "\\s":
+			return rapid.SampledFrom([]string{" ", "\t", "\n"}).Draw(t, label)
+		case "[ ]":
+			return " "
 		default:
 			return rapid.SampledFrom([]string{"a", "x", " ", "é", "\""}).Draw(t, label)
 		}
